@@ -83,6 +83,7 @@ def setup(ctx):
 def teardown(ctx):
     ctx.count('pam_update_calls', ctx.h_calls)
     ctx.count('accept_probe_hits', ctx.probe.hits)
+    ctx.count('accept_probe_errors', ctx.probe.errors)
 
 
 def check_sweeps(ctx, X, mname, sweeps, K, explicit):
